@@ -1,6 +1,7 @@
-import DarkluaModel.C07.Cover
+import DarkluaModel.C07.CoverProof
+import DarkluaModel.C07.Census
 /-!
-# C07 — instances of the coverage theorem for the lowering rules
+# C07 — the empty census, and `Visitor.fuelFor` is enough
 -/
 namespace DarkluaModel.C07
 open DarkluaModel.Rules Visitor
@@ -99,9 +100,21 @@ end
 
 /-! ### `Visitor.fuelFor` is enough when no weight exceeds 6 (and if-expressions cost nothing) -/
 
+theorem Expr.size_pos (e : Expr) : 1 ≤ e.size := by
+  cases e <;> simp only [Expr.size] <;> omega
+
+theorem sizePairs_ge : ∀ ps : List (Expr × Expr), 2 * ps.length ≤ Expr.sizePairs ps
+  | [] => by simp [Expr.sizePairs]
+  | (a, b) :: rest => by
+    have := sizePairs_ge rest
+    have := Expr.size_pos a
+    have := Expr.size_pos b
+    simp only [Expr.sizePairs, List.length_cons]; omega
+
 section fuel
-variable (W : Weights) (hb : ∀ op, W.bin op ≤ 6) (hi : W.interp ≤ 6) (hx : W.ifx = 0) (hc : W.cassign ≤ 6)
-include hb hi hx hc
+variable (W : Weights) (hb : ∀ op, W.bin op ≤ 6) (hi : W.interp ≤ 6) (hx : W.ifx ≤ 13) (hc : W.cassign ≤ 6)
+  (hct : W.cont ≤ 6)
+include hb hi hx hc hct
 
 mutual
   theorem fTy : ∀ t : Ty, kTy W t + 1 ≤ 8 * t.size
@@ -130,7 +143,10 @@ mutual
     | .table es => by have := fEntries es; simp only [kE, Expr.size]; omega
     | .ifx c t elifs e => by
       have := fE c; have := fE t; have := fPairs elifs; have := fE e
-      simp only [kE, Expr.size, hx, Nat.zero_mul]; omega
+      have := Expr.size_pos c; have := Expr.size_pos t; have := Expr.size_pos e
+      have := sizePairs_ge elifs
+      have := Nat.mul_le_mul_right (elifs.length + 1) hx
+      simp only [kE, Expr.size]; omega
     | .interp segs => by have := fSegs segs; simp only [kE, Expr.size]; omega
     | .cast e ty => by have := fE e; have := fTy ty; simp only [kE, Expr.size]; omega
     | .inst e tys => by have := fE e; have := fTys tys; simp only [kE, Expr.size]; omega
@@ -140,10 +156,12 @@ mutual
   theorem fOE : ∀ e : Option Expr, kOE W e ≤ 8 * Expr.sizeOpt e
     | none => by simp [kOE, Expr.sizeOpt]
     | some e => by have := fE e; simp only [kOE, Expr.sizeOpt]; omega
-  theorem fPairs : ∀ ps : List (Expr × Expr), kPairs W ps ≤ 8 * Expr.sizePairs ps
+  theorem fPairs : ∀ ps : List (Expr × Expr), kPairs W ps + 16 * ps.length ≤ 8 * Expr.sizePairs ps + 8
     | [] => by simp [kPairs, Expr.sizePairs]
     | (a, b) :: rest => by
-      have := fE a; have := fE b; have := fPairs rest; simp only [kPairs, Expr.sizePairs]; omega
+      have := fE a; have := fE b; have := fPairs rest
+      have := Expr.size_pos a; have := Expr.size_pos b; have := sizePairs_ge rest
+      simp only [kPairs, Expr.sizePairs, List.length_cons]; omega
   theorem fEntry : ∀ e : Entry, kEntry W e + 1 ≤ 8 * e.size
     | .pos v => by have := fE v; simp only [kEntry, Entry.size]; omega
     | .named _ v => by have := fE v; simp only [kEntry, Entry.size]; omega
@@ -189,7 +207,7 @@ mutual
   theorem fL : ∀ l : Last, kL W l + 1 ≤ 8 * l.size
     | .ret es => by have := fEs es; simp only [kL, Last.size]; omega
     | .brk => by simp [kL, Last.size]
-    | .cont => by simp [kL, Last.size]
+    | .cont => by simp only [kL, Last.size]; omega
   theorem fOB : ∀ b : Option Block, kOB W b ≤ 8 * Block.sizeOpt b
     | none => by simp [kOB, Block.sizeOpt]
     | some b => by have := fB b; simp only [kOB, Block.sizeOpt]; omega
@@ -200,190 +218,10 @@ end
 
 /-- the fuel `Visitor.runDefault` / `runScoped` provide is enough -/
 theorem fuelFor_enough (b : Block) : kB W b + 1 ≤ Visitor.fuelFor b := by
-  have := fB W hb hi hx hc b
+  have := fB W hb hi hx hc hct b
   unfold Visitor.fuelFor
   omega
 end fuel
 
-/-! ### `make_assignment_local` -/
-
-theorem shallowF_const (f : FnBody) : shallowF constCensus f = 0 := by
-  cases f; simp [shallowF, constCensus]
-
-theorem shallowE_const (e : Expr) : shallowE constCensus e = 0 := by
-  cases e <;> simp [shallowE, constCensus]
-  exact shallowF_const _
-
-theorem cover_make_assignment_local : Cover MakeAssignmentLocal.processor constCensus Z {} where
-  cont_zero := rfl
-  afterBlock_id := fun _ _ => rfl
-  scope_id := fun _ _ _ => rfl
-  afterStmtNode_id := fun _ _ => rfl
-  last_id := fun _ _ => rfl
-  afterNode_id := fun _ _ => rfl
-  ty_id := fun _ _ => rfl
-  attrs_id := fun _ _ => rfl
-  insert_id := fun _ _ => rfl
-  insertLocal_id := fun _ _ _ => rfl
-  insertLocalFn_id := fun _ _ => rfl
-  target_id := fun _ _ => rfl
-  exprPos := fun e _ _ hw hc => ⟨hw, hc, Nat.le_refl _, shallowE_const e⟩
-  prefPos := fun e _ _ _ hw hc => ⟨hw, hc, Nat.le_refl _, shallowE_const e⟩
-  nodePos := fun e _ hw hc hs => ⟨hw, hc, Nat.le_refl _, hs⟩
-  stmtPos := by
-    intro st s hw hc
-    refine ⟨hw, hc, Nat.le_refl _, ?_⟩
-    intro hcs s'
-    show GoodS _ _ _ st (MakeAssignmentLocal.stmtNode st s').1
-    cases st <;>
-      simp_all [GoodS, MakeAssignmentLocal.stmtNode, MakeAssignmentLocal.processor, wfS, zS, kS, shallowS, constCensus,
-        isCallStmt]
-    all_goals exact shallowF_const _
-  blockPos := fun _ _ hw hc => ⟨hw, hc, Nat.le_refl _⟩
-
-/-! ### `remove_attribute` -/
-
-theorem shallowF_attr_clear (f : FnBody) : shallowF attributeCensus (RemoveAttribute.clearAttrs f) = 0 := by
-  cases f; simp [shallowF, attributeCensus, RemoveAttribute.clearAttrs]
-
-theorem attr_node_good (e : Expr) (hw : wfE e = true) :
-    GoodE {} attributeCensus Z e (RemoveAttribute.node e) := by
-  refine ⟨?_, zE _, ?_, ?_⟩
-  · cases e <;> simp_all [RemoveAttribute.node]
-    rename_i body; cases body; simp_all [wfE, wfF, RemoveAttribute.clearAttrs]
-  · cases e <;> simp [RemoveAttribute.node]
-    rename_i body; cases body; simp [kE, kF, RemoveAttribute.clearAttrs]
-  · cases e <;> simp [RemoveAttribute.node, shallowE, attributeCensus]
-    exact shallowF_attr_clear _
-
-theorem cover_remove_attribute : Cover RemoveAttribute.processor attributeCensus Z {} where
-  cont_zero := rfl
-  afterBlock_id := fun _ _ => rfl
-  scope_id := fun _ _ _ => rfl
-  afterStmtNode_id := fun _ _ => rfl
-  last_id := fun _ _ => rfl
-  afterNode_id := fun _ _ => rfl
-  ty_id := fun _ _ => rfl
-  attrs_id := fun _ _ => rfl
-  insert_id := fun _ _ => rfl
-  insertLocal_id := fun _ _ _ => rfl
-  insertLocalFn_id := fun _ _ => rfl
-  target_id := fun _ _ => rfl
-  exprPos := fun e _ _ hw _ => attr_node_good e hw
-  prefPos := fun e _ _ _ hw _ => attr_node_good e hw
-  nodePos := fun e _ hw _ _ => attr_node_good e hw
-  stmtPos := by
-    intro st s hw hc
-    refine ⟨hw, hc, Nat.le_refl _, ?_⟩
-    intro hcs s'
-    show GoodS _ _ _ st (RemoveAttribute.stmtNode st)
-    cases st <;>
-      simp_all [GoodS, RemoveAttribute.stmtNode, RemoveAttribute.processor, wfS, zS, kS, shallowS, attributeCensus,
-        isCallStmt]
-    all_goals (rename_i body; cases body; simp_all [wfF, kF, shallowF, RemoveAttribute.clearAttrs])
-  blockPos := fun _ _ hw hc => ⟨hw, hc, Nat.le_refl _⟩
-
-
-/-! ### `remove_if_expression` -/
-
-section ifx
-open RemoveIfExpression
-variable (truthy : Expr → Bool)
-
-def Wifx : Weights := { ifx := 13 }
-
-theorem kE_wrap (e : Expr) : kE Wifx (wrapInTable e) ≤ kE Wifx e + 5 := by
-  unfold wrapInTable parenIfMultiple
-  split <;> simp [kE, kEntries, kEntry] <;> omega
-
-theorem wf_wrap (e : Expr) (h : wfE e = true) : wfE (wrapInTable e) = true := by
-  unfold wrapInTable parenIfMultiple
-  split <;> simp [wfE, wfEntries, wfEntry, h]
-
-theorem kE_convert (c r e : Expr) :
-    kE Wifx (convertIfBranch truthy c r e) ≤ max (kE Wifx c + 8) (max (kE Wifx r + 13) (kE Wifx e + 11)) := by
-  have h1 := kE_wrap r
-  have h2 := kE_wrap e
-  unfold convertIfBranch
-  split
-  · simp [kE, Wifx]; omega
-  · simp only [kE, numOne]
-    simp [Wifx] at *
-    omega
-
-theorem wf_convert (c r e : Expr) (hc : wfE c = true) (hr : wfE r = true) (he : wfE e = true) :
-    wfE (convertIfBranch truthy c r e) = true := by
-  unfold convertIfBranch
-  split
-  · simp [wfE, hc, hr, he]
-  · simp [wfE, isPrefix, numOne, hc, wf_wrap r hr, wf_wrap e he]
-
-theorem shallow_convert (c r e : Expr) : shallowE ifExpressionCensus (convertIfBranch truthy c r e) = 0 := by
-  unfold convertIfBranch
-  split <;> simp [shallowE, ifExpressionCensus]
-
-theorem fold_props : ∀ (ps : List (Expr × Expr)) (acc : Expr), wfPairs ps = true → wfE acc = true →
-    wfE (foldBranches truthy ps acc) = true ∧
-    kE Wifx (foldBranches truthy ps acc) + 2 ≤ 13 * ps.length + max (kPairs Wifx ps) (kE Wifx acc + 2)
-  | [], acc, _, ha => by simp [foldBranches, kPairs, ha]
-  | (c, r) :: rest, acc, hp, ha => by
-    simp only [wfPairs, Bool.and_eq_true] at hp
-    have hw := wf_convert truthy c r acc hp.1.1 hp.1.2 ha
-    have ih := fold_props rest (convertIfBranch truthy c r acc) hp.2 hw
-    have hk := kE_convert truthy c r acc
-    simp only [foldBranches, kPairs, List.length_cons]
-    refine ⟨ih.1, ?_⟩
-    omega
-
-theorem shallowF_ifx (f : FnBody) : shallowF ifExpressionCensus f = 0 := by
-  cases f; simp [shallowF, ifExpressionCensus]
-
-theorem ifx_good (e : Expr) (hw : wfE e = true) :
-    GoodE Wifx ifExpressionCensus Z e (processExpression truthy e) := by
-  cases e with
-  | ifx c t elifs el =>
-    simp only [wfE, Bool.and_eq_true] at hw
-    obtain ⟨fw, fk⟩ := fold_props truthy elifs el hw.1.2 hw.2
-    have hk := kE_convert truthy c t (foldBranches truthy elifs el)
-    refine ⟨wf_convert truthy c t _ hw.1.1.1 hw.1.1.2 fw, zE _, ?_, shallow_convert truthy _ _ _⟩
-    simp only [processExpression, kE]
-    simp only [Wifx] at *
-    omega
-  | _ =>
-    refine ⟨hw, zE _, Nat.le_refl _, ?_⟩
-    simp [processExpression, shallowE, ifExpressionCensus]
-    try exact shallowF_ifx _
-
-theorem cover_remove_if_expression : Cover (RemoveIfExpression.processor truthy) ifExpressionCensus Z Wifx where
-  cont_zero := rfl
-  afterBlock_id := fun _ _ => rfl
-  scope_id := fun _ _ _ => rfl
-  afterStmtNode_id := fun _ _ => rfl
-  last_id := fun _ _ => rfl
-  afterNode_id := fun _ _ => rfl
-  ty_id := fun _ _ => rfl
-  attrs_id := fun _ _ => rfl
-  insert_id := fun _ _ => rfl
-  insertLocal_id := fun _ _ _ => rfl
-  insertLocalFn_id := fun _ _ => rfl
-  target_id := fun _ _ => rfl
-  exprPos := fun e _ _ hw _ => ifx_good truthy e hw
-  prefPos := by
-    intro e s s' hp hw hc
-    show GoodE _ _ _ e e
-    refine ⟨hw, hc, Nat.le_refl _, ?_⟩
-    cases e <;> simp_all [isPrefix, shallowE, ifExpressionCensus]
-  nodePos := fun e _ hw hc hs => ⟨hw, hc, Nat.le_refl _, hs⟩
-  stmtPos := by
-    intro st s hw hc
-    refine ⟨hw, hc, Nat.le_refl _, ?_⟩
-    intro hcs s'
-    show GoodS _ _ _ st st
-    refine ⟨hw, hc, Nat.le_refl _, ?_, hcs⟩
-    cases st <;> simp [shallowS, ifExpressionCensus]
-    all_goals exact shallowF_ifx _
-  blockPos := fun _ _ hw hc => ⟨hw, hc, Nat.le_refl _⟩
-
-end ifx
 
 end DarkluaModel.C07
